@@ -387,10 +387,27 @@ def check_no_dropping(r, rule, qualnames, what):
                         hits += 1
                         rep.ob(rule, q, False, what, where_of(r.P, s.func, e.node), expected="every element of the argument takes part", found=f"{show(c, 90)} leaves elements out",
                                key=f"drops elements .{f[2]}()", lint=True)
+                if head(f) == "attr" and f[2] == "astype" and c[2] and head(strip(c[2][0])) == "attr" and strip(c[2][0])[2] == "dtype":
+                    # x.astype(y.dtype): a fixed-width string / narrower numeric element type of another array truncates values
+                    key = (q, "astype", getattr(e.node, "lineno", 0))
+                    if key not in seen:
+                        seen.add(key)
+                        hits += 1
+                        rep.ob(rule, q, False, what, where_of(r.P, s.func, e.node), expected="elements compared as they are", found=f"{show(c, 90)} converts the elements to the element type of another array (values may be truncated)",
+                               key="converts elements to another array's dtype", lint=True)
+                if head(f) == "glob" and f[1] == "itertools.groupby" and c[2] and not (head(strip(c[2][0])) == "call" and strip(strip(c[2][0])[1]) == ("glob", "builtins.sorted")):
+                    key = (q, "groupby", getattr(e.node, "lineno", 0))
+                    if key not in seen:
+                        seen.add(key)
+                        hits += 1
+                        rep.ob(rule, q, False, what, where_of(r.P, s.func, e.node), expected="equal elements counted together wherever they stand", found=f"{show(c, 90)}: itertools.groupby merges adjacent runs only, the input is not sorted(...)",
+                               key="groupby over unsorted input", lint=True)
             elif e.kind == "load_sub":
                 idx = strip_all(e["index"])
                 mask = head(idx) == "cmp" and idx[1] in ("<", "<=", ">", ">=", "!=", "==") or (head(idx) == "un" and idx[1] in ("~", "not")) or (head(idx) == "bin" and idx[1] in ("&", "|"))
-                if mask and any(x[0] in ("param", "lparam") for x in walk(e["obj"])):
+                # (elements selected by a test of their own values: x[x < c], x[~np.isnan(x)]; a mask computed from something else -
+                # positions of twins in a sorted pool, an intersect1d index - picks, it does not thin out the sample)
+                if mask and any(x[0] in ("param", "lparam") for x in walk(e["obj"])) and any(x == strip_all(e["obj"]) for x in walk(idx)):
                     key = (q, "mask", getattr(e.node, "lineno", 0))
                     if key not in seen:
                         seen.add(key)
